@@ -180,17 +180,19 @@ def _limit_as():
     resource.setrlimit(resource.RLIMIT_AS, (3 << 30, 3 << 30))
 
 
-def record(ctx, job, version=None):
+def record(ctx, job, version=None, release=False):
     """Run the recorder in a child (address space limited to 3 GB so that length-field
     memory bombs end in MemoryError instead of eating the machine)."""
     exe = "/venv/bin/python" if version is None else os.path.join(PYENV, version, "bin", "python")
-    version = version or "venv"
+    version = (version or "venv") + ("-release" if release else "")
     if not os.path.exists(exe):
         return None
     jp = os.path.join(ctx.scratch, f"job-{version}.json")
     op = os.path.join(ctx.scratch, f"out-{version}.json")
     json.dump(job, open(jp, "w"))
     env = dict(os.environ, PYTHONPATH="/repo/src:/verif", PYTHONDONTWRITEBYTECODE="1")
+    if release:  # the execnet release installed in the venv's site-packages, not the tree under test
+        env.update(PYTHONPATH="/verif", SER_RELEASE="1")
     p = subprocess.run([exe, os.path.join("/verif/drivers/ser_recorder.py"), jp, op], env=env, capture_output=True, text=True, timeout=1800, preexec_fn=_limit_as)
     if p.returncode != 0:
         ctx.machinery(f"recorder under {version} failed: {p.stderr[-1500:]}")
